@@ -7,6 +7,7 @@ import (
 	"github.com/XiXi-2024/xixi-kv/fio"
 	"github.com/XiXi-2024/xixi-kv/index"
 	"github.com/XiXi-2024/xixi-kv/utils"
+	"github.com/XiXi-2024/xixi-kv/vhook"
 	"github.com/gofrs/flock"
 	"io"
 	"os"
@@ -76,6 +77,7 @@ func Open(options Options) (*DB, error) {
 		return nil, err
 	}
 
+	vhook.FS("lock", options.DirPath, "")
 	// 尝试获取文件锁
 	// 通过文件锁确保多进程下同一数据目录的 DB 实例唯一
 	fileLock := flock.New(filepath.Join(options.DirPath, datafile.FileLockSuffix))
@@ -108,6 +110,7 @@ func Open(options Options) (*DB, error) {
 		return nil, err
 	}
 
+	vhook.Point("open.afterAdopt")
 	// 加载数据目录中的数据文件
 	files, err := db.loadDataFiles()
 	if err != nil {
@@ -182,6 +185,7 @@ func (db *DB) Backup(dir string) error {
 			}
 		}
 	}
+	vhook.FS("copydir", db.options.DirPath, dir)
 	// 将数据目录中的数据文件拷贝到指定目录中
 	return utils.CopyDir(db.options.DirPath, dir, []string{datafile.FileLockSuffix})
 }
@@ -204,6 +208,7 @@ func (db *DB) Put(key []byte, value []byte) error {
 	if err != nil {
 		return err
 	}
+	vhook.Point("put.afterAppend")
 
 	// 更新索引, 并维护无效数据量
 	if oldPos := db.index.Put(key, pos); oldPos != nil {
@@ -226,6 +231,7 @@ func (db *DB) Get(key []byte) ([]byte, error) {
 	if logRecordPos == nil {
 		return nil, ErrKeyNotFound
 	}
+	vhook.Point("get.afterIndex")
 
 	// 获取 value 并返回
 	return db.getValueByPosition(logRecordPos)
@@ -241,6 +247,7 @@ func (db *DB) Delete(key []byte) error {
 	if pos := db.index.Get(key); pos == nil {
 		return nil
 	}
+	vhook.Point("delete.afterCheck")
 
 	// 构造 LogRecord 设置删除状态, 作为墓碑值追加到数据文件中
 	logRecord := db.recordPool.Get().(*datafile.LogRecord)
@@ -253,6 +260,7 @@ func (db *DB) Delete(key []byte) error {
 	if err != nil {
 		return err
 	}
+	vhook.Point("delete.afterAppend")
 	// 墓碑值本身可视为无效数据
 	atomic.AddInt64(&db.reclaimSize, int64(pos.Size))
 
@@ -271,6 +279,7 @@ func (db *DB) Delete(key []byte) error {
 func (db *DB) ListKeys() [][]byte {
 	iterator := db.index.Iterator(false)
 	defer iterator.Close()
+	vhook.Point("listkeys.afterIter")
 	keys := make([][]byte, db.index.Size())
 	var idx int
 	// 直接通过迭代器遍历获取所有 key
@@ -309,6 +318,7 @@ func (db *DB) Close() error {
 
 	// 释放文件锁
 	defer func() {
+		vhook.FS("unlock", db.options.DirPath, "")
 		if err := db.fileLock.Unlock(); err != nil {
 			panic(fmt.Sprintf("failed to unlock the directory, %v", err))
 		}
